@@ -287,6 +287,104 @@ Proof. vm_compute. reflexivity. Qed.
 Example index_removed_first_does_not_conform : conformsb order_repair_index ex_index_removed_first = false.
 Proof. vm_compute. reflexivity. Qed.
 
+
+(* ======================================================================================
+   Error propagation.  props/C03/extract.py regenerates, for every storage call site of the
+   phase lists above (and of the expanded callees), whether the call's result is handed on
+   (`?`, tail expression, or `if let Err(e) = .. { ..; return Err(e) }`), and the same for the
+   writer thread behind every packer / blob copier (FileWriterHandle, Actor, RawPacker::finalize)
+   and for DecryptWriteBackend::delete_list / save_list.
+   ====================================================================================== *)
+(* if every site hands its result on, a command that returns Ok had no failing call *)
+Theorem failed_call_is_reported : forall props outcomes,
+  all_true props = true -> length outcomes = length props ->
+  run_sites props outcomes = true -> all_true outcomes = true.
+Proof. exact failed_call_reported_lemma. Qed.
+Print Assumptions failed_call_is_reported.
+Example failed_call_is_reported_hyps : all_true propagates_backup = true /\ run_sites propagates_backup (map (fun _ => true) propagates_backup) = true.
+Proof. split; vm_compute; reflexivity. Qed.
+(* a dropped result goes unnoticed: the hypothesis is necessary *)
+Example dropped_result_unnoticed : run_sites [true; false; true] [true; false; true] = true.
+Proof. reflexivity. Qed.
+
+Theorem command_reports_failures_backup : forall outcomes,
+  length outcomes = length propagates_backup ->
+  run_sites propagates_backup outcomes = true -> all_true outcomes = true.
+Proof. intro outcomes. exact (failed_call_is_reported _ outcomes propagates_backup_ok). Qed.
+Print Assumptions command_reports_failures_backup.
+
+Theorem command_reports_failures_copy : forall outcomes,
+  length outcomes = length propagates_copy ->
+  run_sites propagates_copy outcomes = true -> all_true outcomes = true.
+Proof. intro outcomes. exact (failed_call_is_reported _ outcomes propagates_copy_ok). Qed.
+Print Assumptions command_reports_failures_copy.
+
+Theorem command_reports_failures_merge : forall outcomes,
+  length outcomes = length propagates_merge ->
+  run_sites propagates_merge outcomes = true -> all_true outcomes = true.
+Proof. intro outcomes. exact (failed_call_is_reported _ outcomes propagates_merge_ok). Qed.
+Print Assumptions command_reports_failures_merge.
+
+Theorem command_reports_failures_rewrite_trees : forall outcomes,
+  length outcomes = length propagates_rewrite_trees ->
+  run_sites propagates_rewrite_trees outcomes = true -> all_true outcomes = true.
+Proof. intro outcomes. exact (failed_call_is_reported _ outcomes propagates_rewrite_trees_ok). Qed.
+Print Assumptions command_reports_failures_rewrite_trees.
+
+Theorem command_reports_failures_rewrite_meta : forall outcomes,
+  length outcomes = length propagates_rewrite_meta ->
+  run_sites propagates_rewrite_meta outcomes = true -> all_true outcomes = true.
+Proof. intro outcomes. exact (failed_call_is_reported _ outcomes propagates_rewrite_meta_ok). Qed.
+Print Assumptions command_reports_failures_rewrite_meta.
+
+Theorem command_reports_failures_repair_snapshots : forall outcomes,
+  length outcomes = length propagates_repair_snapshots ->
+  run_sites propagates_repair_snapshots outcomes = true -> all_true outcomes = true.
+Proof. intro outcomes. exact (failed_call_is_reported _ outcomes propagates_repair_snapshots_ok). Qed.
+Print Assumptions command_reports_failures_repair_snapshots.
+
+Theorem command_reports_failures_repair_index : forall outcomes,
+  length outcomes = length propagates_repair_index ->
+  run_sites propagates_repair_index outcomes = true -> all_true outcomes = true.
+Proof. intro outcomes. exact (failed_call_is_reported _ outcomes propagates_repair_index_ok). Qed.
+Print Assumptions command_reports_failures_repair_index.
+
+Theorem command_reports_failures_forget : forall outcomes,
+  length outcomes = length propagates_forget ->
+  run_sites propagates_forget outcomes = true -> all_true outcomes = true.
+Proof. intro outcomes. exact (failed_call_is_reported _ outcomes propagates_forget_ok). Qed.
+Print Assumptions command_reports_failures_forget.
+
+Theorem command_reports_failures_prune : forall outcomes,
+  length outcomes = length propagates_prune ->
+  run_sites propagates_prune outcomes = true -> all_true outcomes = true.
+Proof. intro outcomes. exact (failed_call_is_reported _ outcomes propagates_prune_ok). Qed.
+Print Assumptions command_reports_failures_prune.
+
+Theorem command_reports_failures_config : forall outcomes,
+  length outcomes = length propagates_config ->
+  run_sites propagates_config outcomes = true -> all_true outcomes = true.
+Proof. intro outcomes. exact (failed_call_is_reported _ outcomes propagates_config_ok). Qed.
+Print Assumptions command_reports_failures_config.
+
+Theorem command_reports_failures_key_add : forall outcomes,
+  length outcomes = length propagates_key_add ->
+  run_sites propagates_key_add outcomes = true -> all_true outcomes = true.
+Proof. intro outcomes. exact (failed_call_is_reported _ outcomes propagates_key_add_ok). Qed.
+Print Assumptions command_reports_failures_key_add.
+
+Theorem command_reports_failures_key_delete : forall outcomes,
+  length outcomes = length propagates_key_delete ->
+  run_sites propagates_key_delete outcomes = true -> all_true outcomes = true.
+Proof. intro outcomes. exact (failed_call_is_reported _ outcomes propagates_key_delete_ok). Qed.
+Print Assumptions command_reports_failures_key_delete.
+
+Theorem command_reports_failures_writer : forall outcomes,
+  length outcomes = length propagates_writer ->
+  run_sites propagates_writer outcomes = true -> all_true outcomes = true.
+Proof. intro outcomes. exact (failed_call_is_reported _ outcomes propagates_writer_ok). Qed.
+Print Assumptions command_reports_failures_writer.
+
 (* the executable invariant used by the driver is the declarative one *)
 Theorem invb_is_Inv : forall s, invb s = true <-> Inv s.
 Proof. exact invb_spec. Qed.
